@@ -218,3 +218,9 @@ Proof.
   rewrite firstn_all2 by (rewrite skipn_length; lia). reflexivity.
 Qed.
 
+
+(* closes a pointwise specification of a generated lambda, after the facts about its reads were rewritten:
+   case analysis on every remaining condition, whatever the shape of the generated term *)
+Ltac close_spec :=
+  repeat (cbn [gbind]; try split_if); cbn [gbind];
+  first [ reflexivity | f_equal; lia | f_equal; f_equal; lia | exfalso; lia ].
